@@ -744,8 +744,10 @@ func resolvePlannedField(eCtx *executionContext, parentType *Object, source inte
 		}
 	}
 
-	var resolveFnError error
-	result, resolveFnError = resolveFn(ResolveParams{
+	// Keep the resolver's value in a local: storing it in the named result
+	// would hand the raw value back when the deferred recover catches the
+	// panic raised for resolveFnError below.
+	resolved, resolveFnError := resolveFn(ResolveParams{
 		Source:  source,
 		Args:    args,
 		Info:    info,
@@ -753,7 +755,7 @@ func resolvePlannedField(eCtx *executionContext, parentType *Object, source inte
 	})
 
 	if resolveFieldFinishFn != nil {
-		extErrs := resolveFieldFinishFn(result, resolveFnError)
+		extErrs := resolveFieldFinishFn(resolved, resolveFnError)
 		if len(extErrs) != 0 {
 			eCtx.Errors = append(eCtx.Errors, extErrs...)
 		}
@@ -762,7 +764,7 @@ func resolvePlannedField(eCtx *executionContext, parentType *Object, source inte
 		panic(resolveFnError)
 	}
 
-	completed := completePlannedValueCatchingError(eCtx, returnType, fp, info, path, result)
+	completed := completePlannedValueCatchingError(eCtx, returnType, fp, info, path, resolved)
 	return completed, true
 }
 
